@@ -21,11 +21,15 @@ package twig
 
 // C12: content type of a template name: txt (not escaped), an extension with a registered escaper, html otherwise
 // (no extension, unknown extension, inline template)
+//@ pred inlineSrc(name string) = indexof(name, "{{") >= 0 || indexof(name, "{%") >= 0 || indexof(name, "{#") >= 0
 //@ func twig.(*autoEscapeVisitor).guessTypeFromName
 //@   ensures known: result == "txt" || result == "html" || (v.ext != nil && in(v.ext.Escapers, result))
 // plain text is never escaped: a name ending in .txt (or .txt.twig) has content type txt
-//@   ensures txt: hasSuffix(name, ".txt") ==> result == "txt"
-//@   ensures txttwig: hasSuffix(name, ".txt.twig") ==> result == "txt"
+//@   ensures txt: hasSuffix(name, ".txt") && !inlineSrc(name) ==> result == "txt"
+//@   ensures txttwig: hasSuffix(name, ".txt.twig") && !inlineSrc(name) ==> result == "txt"
+// C12: an inline template (its "name" is its source: it holds a template delimiter) is html, whatever its last words
+// look like ("... see notes.txt", "... build.js")
+//@   ensures inline: inlineSrc(name) ==> result == "html"
 //@   ensures noext: (forall i :: 0 <= i && i < len(name) ==> name[i] != '.') ==> result == "html"
 // C12: entering a module or a block escapes the print statements below it (not those of nested blocks, which are
 // entered on their own) for the content type of its defining template; a print statement's expression X becomes
@@ -35,8 +39,12 @@ package twig
 // template's body still holds macros that other templates import)
 //@   ensures module: istype(n, "*parse.ModuleNode") ==> called("v.escapePrints(node.BodyNode,")
 //@   ensures block: istype(n, "*parse.BlockNode") ==> called("v.escapePrints(node.Body,")
+//@ pred explicitEscape(x parse.Expr) = istype(x, "*parse.FilterExpr") && unbox(x, "*parse.FilterExpr").FuncExpr.Name == "escape"
 //@ func twig.(*autoEscapeVisitor).escapePrints
-//@   ensures wrapped: istype(n, "*parse.PrintNode") ==> istype(unbox(n, "*parse.PrintNode").X, "*parse.FilterExpr") && unbox(unbox(n, "*parse.PrintNode").X, "*parse.FilterExpr").FuncExpr.Name == "escape" && len(unbox(unbox(n, "*parse.PrintNode").X, "*parse.FilterExpr").FuncExpr.Args) == 2 && unbox(unbox(n, "*parse.PrintNode").X, "*parse.FilterExpr").FuncExpr.Args[0] == old(unbox(n, "*parse.PrintNode").X) && istype(unbox(unbox(n, "*parse.PrintNode").X, "*parse.FilterExpr").FuncExpr.Args[1], "*parse.StringExpr") && unbox(unbox(unbox(n, "*parse.PrintNode").X, "*parse.FilterExpr").FuncExpr.Args[1], "*parse.StringExpr").Text == ct
+// C12: a print whose expression is an explicit escape filter is left alone (an explicit escape never causes double
+// escaping: its own strategy decides); every other print is wrapped
+//@   ensures explicit: istype(n, "*parse.PrintNode") && old(explicitEscape(unbox(n, "*parse.PrintNode").X)) ==> unbox(n, "*parse.PrintNode").X == old(unbox(n, "*parse.PrintNode").X)
+//@   ensures wrapped: istype(n, "*parse.PrintNode") && !old(explicitEscape(unbox(n, "*parse.PrintNode").X)) ==> istype(unbox(n, "*parse.PrintNode").X, "*parse.FilterExpr") && unbox(unbox(n, "*parse.PrintNode").X, "*parse.FilterExpr").FuncExpr.Name == "escape" && len(unbox(unbox(n, "*parse.PrintNode").X, "*parse.FilterExpr").FuncExpr.Args) == 2 && unbox(unbox(n, "*parse.PrintNode").X, "*parse.FilterExpr").FuncExpr.Args[0] == old(unbox(n, "*parse.PrintNode").X) && istype(unbox(unbox(n, "*parse.PrintNode").X, "*parse.FilterExpr").FuncExpr.Args[1], "*parse.StringExpr") && unbox(unbox(unbox(n, "*parse.PrintNode").X, "*parse.FilterExpr").FuncExpr.Args[1], "*parse.StringExpr").Text == ct
 // nested blocks are left to their own Enter: nothing below a block node is touched here
 //@   at "v.escapePrints(c, ct)" descend: !istype(n, "*parse.BlockNode") && !istype(n, "*parse.PrintNode") && c != nil
 //@   loop 1 invariant true
